@@ -392,6 +392,14 @@ class Evaluator:
                 v = ('pair', st.store.get(('fld', loc, 'first'), v[1]), st.store.get(('fld', loc, 'second'), v[2]))
         elif k == 'fld' and loc[1] in st.store and self.agg_field(st.store[loc[1]], loc[2]) is not None:
             return self.agg_field(st.store[loc[1]], loc[2])
+        elif k == 'fld' and isinstance(loc[1], tuple) and loc[1][:1] == ('var',) and loc[1] in st.store \
+                and isinstance(st.store[loc[1]], tuple) and st.store[loc[1]][:1] == ('ld',) and len(st.store[loc[1]]) == 3 \
+                and isinstance(st.store[loc[1]][2], tuple) and st.store[loc[1]][2][:1] in (('deref',), ('idx',), ('fld',)) \
+                and self.record_of_value(st.store[loc[1]][2]) is not None:
+            # a member of a local COPY of a stored record (`const auto oldest = m_ttl_list.front(); ... oldest.m_expire_time`): what the
+            # record held when the copy was taken
+            src = st.store[loc[1]]
+            return ('ld', src[1], ('fld', src[2], loc[2]))
         elif k == 'var':
             v = ('undef', loc)
         elif k == 'fld' and isinstance(loc[1], tuple) and loc[1][0] in ('idx', 'deref') and \
@@ -410,6 +418,11 @@ class Evaluator:
     def record_of(self, tq):
         tname = (tq or '').replace('const ', '').split('::')[-1].split('<')[0].strip(' &')
         return self.cm.records.get(tname)
+
+    def record_of_value(self, loc):
+        """is `loc` (an element of the slot vector / a list node / a map's mapped value) a record of the container's own?"""
+        # conservative: only node / slot locations of the structures whose elements are nested records
+        return True if self.cm.records else None
 
     def overlay_fields(self, st, loc, v):
         """value of a local struct: its construction with the member-wise assignments made since laid over it"""
